@@ -14,7 +14,7 @@ import (
 func init() {
 	register(&Prop{
 		ID:          "C14",
-		Explanation: "Decides that identity-provider failures cannot yield a session by code shape: every saving path of the callback has redeemCode's error nil, the saved session is redeemCode's and enrichSessionState(session) returned nil; redeemCode returns a session only when provider.Redeem's error was nil; after a stale session's refresh attempt the result is validateSession's verdict (not-expired and provider validation), shared with C12.R4; at every call site of a Provider method (Redeem, EnrichSession, RefreshSession, ValidateSession, Authorize, CreateSessionFromToken, GetEmailAddress) the error result is returned/converted to a non-nil error or examined by a branch, and the boolean/session result is used; OIDC createSession tolerates a failed ID-token verification only for refresh with ErrMissingIDToken; and in all provider, claim-extraction and request packages reachable from ServeHTTP every unchecked type assertion, explicit panic, compiler-unproven index/slice and decoder-filled pointer used without a nil test is guarded or reviewed (the panic-source enumeration of C19 restricted to code that handles identity-provider data). Added during the build: createSession failure clauses (R5); provider code never finds a module callee's error non-nil and then returns success, reviewed fallbacks listed (R6); validateToken answers true only for a non-empty token, an error-free request and status 200 (R7); result-before-error-check dereferences in provider code (under R4). Round 3: bearer sessions only with a typed email_verified absent or true (R8); GitHub's isCollaborator pairs a nil error only with a true verdict (R9).",
+		Explanation: "Decides that identity-provider failures cannot yield a session by code shape: every saving path of the callback has redeemCode's error nil, the saved session is redeemCode's and enrichSessionState(session) returned nil; redeemCode returns a session only when provider.Redeem's error was nil; after a stale session's refresh attempt the result is validateSession's verdict (not-expired and provider validation), shared with C12.R4; at every call site of a Provider method (Redeem, EnrichSession, RefreshSession, ValidateSession, Authorize, CreateSessionFromToken, GetEmailAddress) the error result is returned/converted to a non-nil error or examined by a branch, and the boolean/session result is used; OIDC createSession tolerates a failed ID-token verification only for refresh with ErrMissingIDToken; and in all provider, claim-extraction and request packages reachable from ServeHTTP every unchecked type assertion, explicit panic, compiler-unproven index/slice and decoder-filled pointer used without a nil test is guarded or reviewed (the panic-source enumeration of C19 restricted to code that handles identity-provider data). Added during the build: createSession failure clauses (R5); provider code never finds a module callee's error non-nil and then returns success, reviewed fallbacks listed (R6); validateToken answers true only for a non-empty token, an error-free request and status 200 (R7); result-before-error-check dereferences in provider code (under R4). Round 3: bearer sessions only with a typed email_verified absent or true (R8); GitHub's isCollaborator pairs a nil error only with a true verdict (R9). Round 4: the HTTP helper all provider calls go through hands back a Result without error only when building, sending and completely reading the exchange all returned no error (R10).",
 		NotDecided:  "time-outs, oversized bodies and other resource behaviour; panics inside third-party decoders (go-oidc, jose, simplejson) on hostile bytes.",
 		Run:         runC14,
 	})
@@ -28,6 +28,7 @@ func runC14(c *Ctx) {
 	r.Rule("R6-tested-then-dropped", "provider code never finds a module callee's error non-nil and then returns a nil error (shadowed or overwritten error variables, break-and-forget)", 50)
 	r.Rule("R8-bearer-email-verified", "bearer sessions only with email_verified absent or true after typed decoding (shared with C04.R4)", 1)
 	r.Rule("R9-github-collaborator-verdict", "isCollaborator pairs a nil error only with a true verdict (its caller returns the error when the verdict is false)", 1)
+	r.Rule("R10-transport-failure-is-error", "the HTTP helper all provider calls go through hands back a Result without error only when building, sending and completely reading the exchange all returned no error", 1)
 	r.Rule("R7-validate-token", "validateToken true => token non-empty, request error-free, status 200", 1)
 	r.Rule("R4-panic-sources", "no unguarded panic source on decoded identity-provider data in request-reachable provider code", 8)
 	r.Rule("R5-verification-failures", "createSession tolerates a verification failure only for refresh && ErrMissingIDToken", 2)
@@ -164,6 +165,7 @@ func runC14(c *Ctx) {
 	runC14R7(c, "R7-validate-token")
 	runBearerEmailVerified(c, "R8-bearer-email-verified")
 	runC14R9(c, "R9-github-collaborator-verdict")
+	runC14R10(c, "R10-transport-failure-is-error")
 
 	// ---- R4 ---------------------------------------------------------------------------------
 	rule = "R4-panic-sources"
@@ -389,5 +391,69 @@ func runC14R9(c *Ctx, rule string) {
 	}
 	if n == 0 {
 		c.R.Unknown(rule, "collaborator-verdict|none", c.P.Pos(getUser.Pos()), "no path of getUser reaches the collaborator check")
+	}
+}
+
+// runC14R10: every provider call (redeem, refresh, validation, profile and group look-ups) goes through
+// (*requests.builder).do, and its callers take Result.Error()==nil to mean "this is what the identity provider sent".
+// On every path of do on which one of the fallible steps (building the request, the round trip, reading the body to
+// its end) returned an error that is not known to be nil, the Result carries a non-nil err. A tolerated read error
+// hands truncated bodies to validateToken (which only looks at the status) and to the form-decoding fallback of
+// Redeem.
+func runC14R10(c *Ctx, rule string) {
+	do := c.Fn(rule, "(*pkg/requests.builder).do")
+	errF := c.Field(rule, "pkg/requests.result.err")
+	if do == nil || errF == nil {
+		return
+	}
+	key := "failed-exchange-has-error|" + fnKey(do)
+	n, bad := 0, false
+	c.WalkShallow(rule, do, func(p *walk.Path) {
+		if _, ok := p.Exit.(*ssa.Return); !ok || bad {
+			return
+		}
+		var failed *walk.Call
+		for _, cl := range p.Calls() {
+			cl := cl
+			if _, isDefer := cl.In.(*ssa.Defer); isDefer {
+				continue
+			}
+			sig := cl.C.Signature()
+			ei := errResultIndex(sig)
+			if ei < 0 || sig.Results().Len() < 2 {
+				continue // constructors of errors (fmt.Errorf) and verdict helpers are not fallible steps
+			}
+			if isNil, k := p.ResultNil(cl.DV(), ei, p.End()); !(k && isNil) {
+				failed = &cl
+				break
+			}
+		}
+		n++
+		if failed == nil {
+			return
+		}
+		carries := false
+		for i, st := range p.Steps {
+			s, ok := st.In.(*ssa.Store)
+			if !ok {
+				continue
+			}
+			fa, ok := s.Addr.(*ssa.FieldAddr)
+			if !ok || walk.FieldOf(fa.X.Type(), fa.Field) != errF {
+				continue
+			}
+			if i > failed.Idx && !DefinitelyNil(p, p.StepOp(s.Val, st), p.End()) {
+				carries = true
+			}
+		}
+		if !carries {
+			bad = true
+			c.bad(rule, key, p.Exit, "the error of "+walk.CalleeName(failed.C)+" is not known to be nil on this path, yet the Result handed to the provider code carries no error: an incomplete or failed exchange is taken for the identity provider's answer", p, p.End())
+		}
+	})
+	if !bad && n > 0 {
+		c.R.OK(rule, key, c.P.Pos(do.Pos()), sprintf("%d return path(s): a Result without err only when every fallible step returned nil", n))
+	} else if !bad {
+		c.R.Unknown(rule, key, c.P.Pos(do.Pos()), "no return path found")
 	}
 }
